@@ -23,7 +23,17 @@ def isLDH (c : Nat) : Bool := (97 ≤ c && c ≤ 122) || (48 ≤ c && c ≤ 57) 
 
 def star : Nat := 42
 
-inductive NErr | ip | qualify | wildcard | idna | chars
+def dot : Nat := 46
+
+/-- `strings.Contains(s, "..")` -/
+def dotdot : Runes → Bool
+  | a :: b :: rest => (a == dot && b == dot) || dotdot (b :: rest)
+  | _ => false
+
+/-- `strings.HasPrefix(uni, ".") || strings.HasSuffix(uni, ".") || strings.Contains(uni, "..")` -/
+def emptyLabel (u : Runes) : Bool := u.head? == some dot || u.getLast? == some dot || dotdot u
+
+inductive NErr | ip | qualify | wildcard | idna | emptyLabel | chars
   deriving DecidableEq, Repr
 
 /-- `Normalize` (order of checks as in the Go code) -/
@@ -34,7 +44,9 @@ def normalize (isIP qualifies : Runes → Bool) (toASCII : Runes → Option Rune
   if star ∈ trimmed then .error .wildcard else
   match toASCII trimmed with
   | none => .error .idna
-  | some uni => if uni.all isLDH then .ok uni else .error .chars
+  | some uni =>
+    if emptyLabel uni then .error .emptyLabel else
+    if uni.all isLDH then .ok uni else .error .chars
 
 /-! ## records -/
 
@@ -45,7 +57,6 @@ def hexEncode : Bytes → Runes
   | [] => []
   | b :: bs => hexDigit (b / 16) :: hexDigit (b % 16) :: hexEncode bs
 
-def dot : Nat := 46
 def acmePrefix : Runes := [95, 97, 99, 109, 101, 45, 99, 104, 97, 108, 108, 101, 110, 103, 101, 46]   -- "_acme-challenge."
 def managed : Runes := [109, 97, 110, 97, 103, 101, 100]   -- "managed"
 
